@@ -8,7 +8,6 @@ import (
 	"sort"
 	"strings"
 	"testing"
-	"testing/synctest"
 	"time"
 
 	"github.com/mgtv-tech/redis-GunYu/config"
@@ -37,6 +36,8 @@ type c19Scenario struct {
 	Init     []string `json:"init,omitempty"`  // topology steps already applied when the replay starts
 	Sleep    bool     `json:"sleep,omitempty"` // "one second passes" is an explorer action (in-run retry sleeps)
 	Defer    bool     `json:"defer,omitempty"` // default order: a request passed over once waits behind newer requests, items and sleeps
+	Preempt  bool     `json:"preempt,omitempty"`
+	Plan     []string `json:"plan,omitempty"` // preemption plan over the wake-up statements of the cluster client and syncer/output.go
 }
 
 // keys: two keys in slot of {t} (node 0), one key on node 1, one more slot on node 0
@@ -100,10 +101,22 @@ type c19Rec struct {
 	Healthy   bool // some run consumed the whole stream and kept running
 	Steps     int
 	Horizon   bool
+	Seen      []string
+	Hit       []string
 }
 
 func c19Exec(t *testing.T, scn c19Scenario, ch *mc.Chooser) (rec c19Rec, machinery string) {
 	msg := bubble(t, func() {
+		if scn.Preempt {
+			pre := installPreempt(scn.Plan)
+			curPre = pre
+			pre.armed = true
+			defer func() {
+				rec.Seen, rec.Hit = pre.seen, pre.hit
+				curPre = nil
+				pre.remove()
+			}()
+		}
 		vnet.Reset()
 		vtime.Reset()
 		vtime.Register(durBatch, "batch")
@@ -220,7 +233,7 @@ func c19Exec(t *testing.T, scn c19Scenario, ch *mc.Chooser) (rec c19Rec, machine
 			done := make(chan error, 1)
 			rd := newHReader(g, aofRunID, startOffset, -1, true)
 			go func() { done <- ro.Send(ctx, rd) }()
-			synctest.Wait()
+			aofWait()
 			ended := false
 			var sendErr error
 			poll := func() {
@@ -293,7 +306,7 @@ func c19Exec(t *testing.T, scn c19Scenario, ch *mc.Chooser) (rec c19Rec, machine
 							vtime.Fire("cp")
 						}
 						flushed++
-						synctest.Wait()
+						aofWait()
 						poll()
 						continue
 					}
@@ -302,7 +315,7 @@ func c19Exec(t *testing.T, scn c19Scenario, ch *mc.Chooser) (rec c19Rec, machine
 					}
 					idle++
 					time.Sleep(1100 * time.Millisecond)
-					synctest.Wait()
+					aofWait()
 					poll()
 					continue
 				}
@@ -339,7 +352,7 @@ func c19Exec(t *testing.T, scn c19Scenario, ch *mc.Chooser) (rec c19Rec, machine
 					sleeps++
 					time.Sleep(1100 * time.Millisecond)
 				}
-				synctest.Wait()
+				aofWait()
 				poll()
 			}
 			horizon := !ended && len(listParked()) > 0
@@ -362,17 +375,17 @@ func c19Exec(t *testing.T, scn c19Scenario, ch *mc.Chooser) (rec c19Rec, machine
 			}
 			cancel()
 			g.Close(nil)
-			synctest.Wait()
+			aofWait()
 			poll()
 			if !ended {
 				time.Sleep(30 * time.Second)
-				synctest.Wait()
+				aofWait()
 				poll()
 			}
 			for _, n := range cl.Nodes {
 				n.KillConns()
 			}
-			synctest.Wait()
+			aofWait()
 			setPark(true)
 			if horizon {
 				rec.Horizon = true
@@ -387,13 +400,13 @@ func c19Exec(t *testing.T, scn c19Scenario, ch *mc.Chooser) (rec c19Rec, machine
 		for _, n := range cl.Nodes {
 			n.Unpark()
 		}
-		synctest.Wait()
+		aofWait()
 		time.Sleep(5 * time.Second)
-		synctest.Wait()
+		aofWait()
 		for _, n := range cl.Nodes {
 			n.KillConns()
 		}
-		synctest.Wait()
+		aofWait()
 		if rec.Log == nil {
 			rec.Log = cl.GlobalLog()
 		}
@@ -522,8 +535,10 @@ func runC19(t *testing.T, rep *mc.Reporter) {
 	shard, nshards := mc.ShardOf()
 	tier := mc.Tier()
 	budget := &mc.Budget{Deadline: mc.DeadlineFromEnv()}
+	var lastSeen, lastHit []string
 	exec := func(scn c19Scenario, ch *mc.Chooser) mc.Result {
 		rec, mach := c19Exec(t, scn, ch)
+		lastSeen, lastHit = rec.Seen, rec.Hit
 		if strings.HasPrefix(mach, "bubble: deadlock") && rec.Log != nil {
 			// goroutines of the code under test were still blocked after the final teardown.
 			// The recorded history is complete; if it breaks the property that is the verdict,
@@ -614,6 +629,42 @@ func runC19(t *testing.T, rep *mc.Reporter) {
 			}
 			scn := c19Scenario{Keys: st, Cfg: cfg, Init: []string{"M", "Mw"}, Topo: []string{"K2"}, Sleep: true, Defer: true}
 			mc.RunScenario(rep, scn, retryBound, budget, func(ch *mc.Chooser) mc.Result { return exec(scn, ch) })
+		}
+	}
+	// ---- preemption family: default request order, migrations already in place when the replay
+	// starts; every wake-up statement of the cluster client (batch.go, batch_pipe.go,
+	// node_pipeline.go) and of syncer/output.go reached is a point at which the running goroutine
+	// may be held back until all others block
+	pbound := 1
+	pstreams := [][]int{{0, 2, 0}, {0, 0, 2}}
+	pinits := [][]string{{"M"}, {"M", "Mw"}, nil}
+	if tier == "thorough" {
+		pbound = 2
+		pstreams = append(pstreams, []int{2, 0, 1, 0})
+	}
+	for _, st := range pstreams {
+		for _, in := range pinits {
+			for _, cfg := range cfgs {
+				if cfg.Txn {
+					continue
+				}
+				idx++
+				if idx%nshards != shard || budget.Expired() {
+					continue
+				}
+				scn := c19Scenario{Keys: st, Cfg: cfg, Init: in, Preempt: true}
+				rep.Scenario()
+				explorePreempt(rep, budget, pbound, func(plan []string, res mc.Result) {
+					sc := scn
+					sc.Plan = plan
+					rep.Exec(sc, nil, res)
+				}, func(plan []string) (mc.Result, []string, []string) {
+					sc := scn
+					sc.Plan = plan
+					r := exec(sc, mc.NewChooser(nil))
+					return r, lastSeen, lastHit
+				})
+			}
 		}
 	}
 	if budget.Expired() {
